@@ -190,6 +190,8 @@ class ErrorDiscipline:
 
     def _option_used(self, body, local, depth=0):
         u = self.uses(body)
+        if local == 0:
+            return True     # `.ok()` written straight into the return slot: the Option is the function's / closure's result
         if u.stmt_uses.get(local) or u.switch_uses.get(local):
             return True
         for (bb, t, i) in u.call_uses.get(local, []):
